@@ -679,6 +679,12 @@ NOINSTR int __wrap_unlink(const char *path) { return S.in_sut ? sim_remove(path)
 NOINSTR int __wrap_rename(const char *from, const char *to) {
 	if (!S.in_sut) return __real_rename(from, to);
 	ev(0x6e, hash_bytes(to, strlen(to)));
+	if (const FaultB *f = find_fault("rename", 0)) {
+		// the destination is a directory, lives on another file system, is not writable, ...
+		fired(F_RENAME);
+		errno = f->err ? f->err : EISDIR;
+		return -1;
+	}
 	auto it = S.outfiles.find(from);
 	if (it == S.outfiles.end()) { errno = ENOENT; return -1; }
 	std::string data = it->second;
